@@ -12,8 +12,13 @@ vars == <<tid, l, trel, tpts, nf>>
 
 Eps == "1e-12"
 NumEq(x, y) == IF x = Null \/ y = Null THEN x = y ELSE (RIsNum(x) /\ CloseR(x, y, Eps))
+\* an efficiency lives in [0, 1] and, for worm matings, is a quotient whose numerator cancels near the self-locking threshold
+\* (cos a - f / tan b): its rounding error is Eps x the condition scale of the formula (at most ~130 for the flattest worm),
+\* not Eps x its own (possibly tiny) value
+EffEq(x, y) == IF x = Null \/ y = Null THEN x = y
+               ELSE RIsNum(x) /\ RLe(RAbs(RSub(x, y)), RAdd(RMul(Eps, RMax(RAbs(x), RAbs(y))), "1e-13"))
 AttrEq(a, r) == /\ a.drives = r.drives /\ a.drivenBy = r.drivenBy /\ a.role = r.role /\ a.sl = r.sl
-                /\ NumEq(a.ratio, r.ratio) /\ NumEq(a.eff, r.eff)
+                /\ NumEq(a.ratio, r.ratio) /\ EffEq(a.eff, r.eff)
 RelEq(attrs, r) == \A x \in DOMAIN r : AttrEq(attrs[x], r[x])
 
 Outcomes(objs, r, s) ==
